@@ -1,4 +1,4 @@
-//@serves C01 C02 C05 C10 C15 C11 C12
+//@serves C01 C02 C05 C10 C15 C11 C12 C03 C04 C14
 //@tier A
 //@include prelude/head.rs
 verus! {
